@@ -16,7 +16,7 @@ EXPLANATION = (
     "returns MaxRetryCountReached on None; (R5) Backoff::new(200 ms, max_retry_interval ms, 2, max_retry_count); "
     "(R6) listener spawns live outside the retry loop.")
 EXPLANATION_ADDED = "(R7) Backoff::advance clamps both the stored state and the returned delay by max; (R8) the retryable() tables classify the connection-lost variants as retryable and delegate for wrapping variants; R1 also covers the select's else arm; R4 also requires the wait to be the delay returned by advance()."
-EXPLANATION_ADDED2 = " (R9) handshake_timeout is armed around the whole connection attempt; (R10) the stream-request channel is acquired by awaiting only; R3 also requires reset() to act on the loop's generator (by-reference capture); R7 also decides the give-up predicate and count-by-one."
+EXPLANATION_ADDED2 = " (R9) handshake_timeout is armed around the whole connection attempt; (R10) the stream-request channel is acquired by awaiting only; R3 also requires reset() to act on the loop's generator (by-reference capture); R7 also decides the give-up predicate and count-by-one; R8 also evaluates the io::Error classifier per ErrorKind over its CFG (11 connection-loss kinds retryable, 6 fatal kinds fatal), the wildcard arms (fatal) and the tungstenite / tls tables; (R11) every conversion into the client Error on the connect path carries the error it converts (map_err mappers and Err-edge constructions)."
 EXPLANATION = EXPLANATION + " Added while testing against seeded changes: " + EXPLANATION_ADDED + EXPLANATION_ADDED2
 ASSUMPTIONS = ["Duration arithmetic of Backoff::advance: only the clamping structure is decided (R7: stored state and returned delay are both bounded by max); the numeric delay sequence is left to the repository's unit tests"]
 NOT_DECIDED = "the delay values and the timing of attempts"
